@@ -15,9 +15,6 @@ NA = {
     "C09": "the catalogue partition quantifies over database contents run through the grouping / renaming / "
            "fusion-partial / duplicate-removal algorithm; deciding 'no allele lost or merged' needs that algorithm "
            "executed on data, which static analysis of the loader cannot bound.",
-    "C11": "the diplotype arrangement is a heuristic whose claims (every copy once, balance, tandem adjacency, order "
-           "independence) quantify over all multisets and permutations; a conservation analysis of its list shuffling "
-           "would be a proxy frozen to today's statements.",
     "C13": "equality of solutions and scores across genome builds / strands relates two executions through the "
            "solver; its structural prerequisites (orientation, offsets, inverse maps) are decided under C08, the "
            "remainder is a runtime relation.",
@@ -32,6 +29,7 @@ TECH = {
     "C07": "formula of the lifted normalisation routine folded on sample depth tables (monomial, k-fold invariance, self-profile = 2.0 through the lifted profile writer); sibling depth-counter agreement table per CIGAR op; zero-guard dominance",
     "C08": "lifted coordinate converter folded on generated variants of every kind x strand (sequence-level haplotype equality) plus a syntactic per-kind strand offset table as linear forms over len(); inverse maps and lookup sequence vs an independent reading of the alignment string; stored-notation readers; indel bridge with a recording Variant stub",
     "C10": "guard dominance for empty-stage errors; def-use expansion of the carried score formula; folded selection predicate; positional wiring of re-wrapped solutions",
+    "C11": "bounded-exhaustive partial evaluation of the lifted arrangement function and name renderers on every multiset of up to 3 (thorough 5) alleles in every order, checked clause by clause against an independent reading",
     "C12": "sibling cross-check of the carried-variant set algebra in every writer; replicated-mutable-cell rule; REF/ALT derivation per kind branch",
     "C14": "interprocedural mutation-effect / alias analysis over the call graph (who may write catalogue and evidence); late-bound closure capture via symtable; hash-order taint; write-only debug store",
     "C15": "Coverage typestate dataflow (quality filter before every model read); folded quality / threshold predicates; tuple layout agreement",
